@@ -94,6 +94,13 @@ func vfRecover(what string, fn func()) (panicked string) {
 	return ""
 }
 
+func vfMin(a, b int) int {
+	if a < b {
+		return a
+	}
+	return b
+}
+
 func TestMain(m *testing.M) {
 	os.Exit(m.Run())
 }
